@@ -9,6 +9,14 @@ import ClairModel.Proofs.TarFS
 namespace ClairModel.Props.C11
 open ClairModel ClairModel.TarFS
 
+/-- Containment of names: for every byte string `p` (a member name or a link
+    target, with any mixture of "..", absolute prefixes, empty elements and
+    bytes that are not UTF-8), `normPath p` is a valid io/fs path: relative,
+    without empty, "." or ".." elements, and valid UTF-8. Every name New
+    stores went through normPath. -/
+theorem normPath_contained (p : Bytes) : validPath (normPath p) = true :=
+  normPath_valid p
+
 /-- Other repetition is rejected (1): a member that is not a regular file or
     hard link (a directory, symbolic link or special file) whose name is
     already a key of the lookup table makes `add` fail with ErrExist and leaves
@@ -29,5 +37,40 @@ theorem file_over_directory_rejected (fuel : Nat) (fs : FS) (hl : HL) (name : By
     (hd : (fs.ino i).kind.mtype = .dir) :
     add (fuel + 1) fs hl name ino useHL = (fs, hl, some .exist) := by
   simp [add, again_over_dir fs ino.kind _ name i h hk hd]
+
+/-- Last writer wins: a regular file over an existing regular file (or hard
+    link) replaces exactly that inode — the lookup table, every other inode
+    and the deferred hard links are unchanged, so the name now reads the new
+    content. -/
+theorem file_over_file_replaces (fuel : Nat) (fs : FS) (hl : HL) (name : Bytes)
+    (ino : Inode) (useHL : Bool) (i : Nat)
+    (h : fs.get? name = some i) (hk : ino.kind.mtype = .regular)
+    (he : (fs.ino i).kind.mtype = .regular) :
+    add (fuel + 1) fs hl name ino useHL =
+      ({ fs with inodes := fs.inodes.set i { ino with name := name } }, hl, none) := by
+  simp [add, again_over_file fs ino.kind _ name i h hk he]
+
+/-- Link resolution: if `m` hops along symbolic links lead from `name` to `t`,
+    `t` is not a symbolic link, and `m` is at most the number of inodes, then
+    `Open(name)` is `Open(t)`. -/
+theorem open_resolves_chain (fs : FS) (m : Nat) (name t : Bytes)
+    (hchain : linkIter fs m name = some t) (hend : linkStep fs t = none)
+    (hm : m ≤ fs.inodes.length) : openFS fs name = openFS fs t :=
+  open_follows_chain fs m name t hchain hend hm
+
+/-- A chain without a repeated inode is never longer than the hop budget:
+    `m ≤ inodes` in `open_resolves_chain` holds for every chain of symbolic
+    links that is not a cycle. -/
+theorem acyclic_chain_within_budget (fs : FS) (idxs : List Nat) (hnd : idxs.Nodup)
+    (hsym : ∀ i ∈ idxs, (fs.ino i).kind = .sym) : idxs.length ≤ fs.inodes.length :=
+  acyclic_chain_short fs idxs hnd hsym
+
+/-- Cycles give an error, never divergence: when following symbolic links
+    from `name` never reaches anything else, `Open(name)` fails with
+    ErrInvalid. (`openFS` is a total function; before the fix daa67834 the
+    code recursed without bound.) -/
+theorem open_cycle_is_error (fs : FS) (name : Bytes)
+    (h : ∀ m, ∃ t, linkIter fs m name = some t) : openFS fs name = .err .invalid :=
+  openAux_endless _ name h
 
 end ClairModel.Props.C11
